@@ -500,7 +500,6 @@ func checkFindIdx(c *core.Ctx, r *core.Rule, fn *ssa.Function) {
 	r.Undecided("findIdx:parse", c.Pos(fn.Pos()), "no strconv parse of the token found in findIdx")
 }
 
-
 // checkComponentShortcutWholeRemainder (R16.7, S1). The OpenAPI parser answers a reference of the form
 // `#/components/<section>/<name>` from the typed Components maps instead of evaluating the pointer. That shortcut
 // designates the node RFC 6901 designates only if the map is asked for the WHOLE remainder after the section prefix:
@@ -553,7 +552,6 @@ func checkComponentShortcutWholeRemainder(c *core.Ctx, prog *core.Prog) {
 		r.Undecided("anchor:components-lookup", "-", "no lookup in a `components` map found in openapi/parser")
 	}
 }
-
 
 // wholeRemainderOfParam: v is a parameter p of the enclosing function with a prefix cut off and nothing else:
 // strings.TrimPrefix(p, _), p[len(_):], or the first result of a module function all of whose returns are such an
